@@ -25,7 +25,10 @@ DW_AT = dict(sibling=0x01, location=0x02, name=0x03, ordering=0x09, byte_size=0x
              decimal_sign=0x5e, endianity=0x65, linkage_name=0x6e, alignment=0x88, defaulted=0x8b, str_offsets_base=0x72, addr_base=0x73,
              rnglists_base=0x74, loclists_base=0x8c, call_column=0x57, call_file=0x58, description=0x5a, decimal_scale=0x5c, small=0x5d,
              digit_count=0x5f, picture_string=0x60, mutable=0x61, threads_scaled=0x62, explicit=0x63, object_pointer=0x64, elemental=0x66,
-             pure=0x67, recursive=0x68, main_subprogram=0x6a, data_bit_offset=0x6b, const_expr=0x6c, enum_class=0x6d, noreturn=0x87)
+             pure=0x67, recursive=0x68, main_subprogram=0x6a, data_bit_offset=0x6b, const_expr=0x6c, enum_class=0x6d, noreturn=0x87,
+             # vendor attributes (codes above 0xff; several share their low byte with a standard attribute)
+             MIPS_linkage_name=0x2007, GNU_vector=0x2107, GNU_all_tail_call_sites=0x2116, GNU_all_call_sites=0x2117, GNU_pubnames=0x2134,
+             GNU_macros=0x2119, GNU_deleted=0x211a, GNU_locviews=0x2137, GNU_entry_view=0x2138)
 DW_FORM = dict(addr=0x01, block2=0x03, block4=0x04, data2=0x05, data4=0x06, data8=0x07, string=0x08, block=0x09, block1=0x0a, data1=0x0b,
                flag=0x0c, sdata=0x0d, strp=0x0e, udata=0x0f, ref_addr=0x10, ref1=0x11, ref2=0x12, ref4=0x13, ref8=0x14, ref_udata=0x15,
                indirect=0x16, sec_offset=0x17, exprloc=0x18, flag_present=0x19, line_strp=0x1f, implicit_const=0x21, data16=0x1e,
